@@ -327,7 +327,7 @@ func (w *World) ReachFuncs(fn *ssa.Function, depth int) map[*types.Func]int {
 				continue
 			}
 			sf := StaticFn(c)
-			if sf == nil || sf.Pkg == nil || !InMod(sf.Pkg.Pkg.Path()) || len(sf.Blocks) == 0 {
+			if sf == nil || !InModFn(sf) || len(sf.Blocks) == 0 {
 				continue
 			}
 			if !seen[sf] {
@@ -460,6 +460,20 @@ func ReachableAfter(a, b ssa.Instruction) bool {
 		if walk(s) {
 			return true
 		}
+	}
+	return false
+}
+
+// InModFn reports whether an SSA function (or the generic it instantiates) belongs to the analysed module.
+func InModFn(f *ssa.Function) bool {
+	if f == nil {
+		return false
+	}
+	if f.Pkg != nil {
+		return InMod(f.Pkg.Pkg.Path())
+	}
+	if o := f.Origin(); o != nil && o.Pkg != nil {
+		return InMod(o.Pkg.Pkg.Path())
 	}
 	return false
 }
